@@ -21,15 +21,17 @@ META = {
 }
 
 PATS = [(), ("B",), ("A", "C"), ("*",), ("X*",), ("A.x",), ("A.*",), ("A?x", "Ax*")]      # the last three are meant for the shape with dotted names
-ST = ["none", "pending", "running", "done"]
+ST = ["none", "pending", "running", "done", "held"]      # held: still at the scheduler, in a state gwf cannot name (SGE Eqw, LSF UNKWN)
 CANCEL_EXE = {"slurm": "scancel", "sge": "qdel", "lsf": "bkill"}
 
 
 def _q17(ja, jb, jc, pi, force, answer, k):
     sh = q.SHARD
     be = sh["be"]
-    if not (q.in_range(ja, 4) and q.in_range(jb, 4) and q.in_range(jc, 4) and q.in_range(pi, len(PATS)) and q.in_range(k, 4)):
+    if not (q.in_range(ja, 5) and q.in_range(jb, 4) and q.in_range(jc, 4) and q.in_range(pi, len(PATS)) and q.in_range(k, 4)):
         return q.SKIP
+    if (ja == 4) != bool(sh.get("held")):
+        return q.SKIP        # the first target's job is held in the held shards (SGE, LSF) and only there
     if "pi" in sh and pi != sh["pi"]:
         return q.SKIP
     if "k" in sh and k != sh["k"]:
@@ -37,12 +39,12 @@ def _q17(ja, jb, jc, pi, force, answer, k):
     if be == "local" and k != 0:
         return q.SKIP
     nst = sh.get("nstates", 4)
-    if ja >= nst or jb >= nst or jc >= nst:
+    if (ja >= nst and ja != 4) or jb >= nst or jc >= nst:
         return q.SKIP
     if sh["pi"] != 0 and (force or answer):
         return q.SKIP        # with named targets there is no prompt: force/answer are irrelevant
     force, answer = (True if force else False), (True if answer else False)
-    js = [q.pick([0, 1, 2, 3], ja), q.pick([0, 1, 2, 3], jb), q.pick([0, 1, 2, 3], jc)]
+    js = [q.pick([0, 1, 2, 3, 4], ja), q.pick([0, 1, 2, 3], jb), q.pick([0, 1, 2, 3], jc)]
     pats = q.pick(PATS, pi)
     kk = q.pick([0, 1, 2, 3], k)
     with q.notrace():
@@ -52,8 +54,10 @@ def _q17(ja, jb, jc, pi, force, answer, k):
         ids = {}
         for nm, j, jid in zip(pr.names, js, ("21", "22", "23")):
             if ST[j] != "none":
-                pr.add_tracked(nm, jid, ST[j])
+                pr.add_tracked(nm, jid, "pending" if ST[j] == "held" else ST[j])
                 ids[nm] = pr.tracked[nm]
+                if ST[j] == "held":
+                    w.sim.jobs[str(jid)].state = {"sge": "Eqw", "lsf": "UNKWN"}[be]
         # a job of an untracked, unrelated user
         if w.sim is not None:
             w.sim.foreign = [("2", "R")]
@@ -140,10 +144,11 @@ def q17(ja: int, jb: int, jc: int, pi: int, force: bool, answer: bool, k: int) -
 QUERIES = [
     {"name": "Q17", "fn": q17,
      "shards": {"quick": [{"be": "slurm", "pi": p, "k": k, "nstates": 3} for p in (0, 2, 3) for k in range(4)] + [{"be": b, "pi": 2, "k": k, "nstates": 3} for b in ("sge", "lsf") for k in (0, 1)] + [{"be": "local", "pi": 2, "k": 0, "nstates": 3}, {"be": "slurm", "pi": 1, "k": 1, "nstates": 3}, {"be": "slurm", "pi": 4, "k": 0, "nstates": 3}]
-                         + [{"be": "slurm", "pi": p, "k": 0, "nstates": 3, "shape": "dotted"} for p in (5, 6, 7)],
-                "thorough": [{"be": b, "pi": p, "k": 0, "shape": "dotted"} for b in ("slurm", "local") for p in (0, 5, 6, 7)] + [{"be": b, "pi": p, "k": k} for b in ("slurm", "sge", "lsf") for p in range(5) for k in range(4)] + [{"be": "local", "pi": p, "k": 0} for p in range(5)]},
+                         + [{"be": "slurm", "pi": p, "k": 0, "nstates": 3, "shape": "dotted"} for p in (5, 6, 7)]
+                         + [{"be": b, "pi": 0, "k": 0, "nstates": 3, "held": True} for b in ("sge", "lsf")],
+                "thorough": [{"be": b, "pi": p, "k": 0, "held": True} for b in ("sge", "lsf") for p in (0, 2, 3)] + [{"be": b, "pi": p, "k": 0, "shape": "dotted"} for b in ("slurm", "local") for p in (0, 5, 6, 7)] + [{"be": b, "pi": p, "k": k} for b in ("slurm", "sge", "lsf") for p in range(5) for k in range(4)] + [{"be": "local", "pi": p, "k": 0} for p in range(5)]},
      "timeout": {"quick": 1800, "thorough": 3600},
-     "bound": "chain of 3 (and, for the last three selections, three targets named A.x, A_x, Axx); each target never submitted / pending / running (quick) + finished (thorough), symbolic; selections %s; --force or prompt answer; the k-th cancel command failing for k in 0..3 (symbolic; none for the pool, whose protocol has no answer to cancel); "
+     "bound": "chain of 3 (in the held shards the first target's job sits at the scheduler in a state gwf has no name for: SGE Eqw, LSF UNKWN; and, for the last three selections, three targets named A.x, A_x, Axx); each target never submitted / pending / running (quick) + finished (thorough), symbolic; selections %s; --force or prompt answer; the k-th cancel command failing for k in 0..3 (symbolic; none for the pool, whose protocol has no answer to cancel); "
               "then status and run; Slurm all selections + two selections on SGE, LSF, pool (quick); everything (thorough)" % (PATS,)},
 ]
 
